@@ -211,6 +211,15 @@ pub fn judge_linear(prop: &str, isa: Isa, acc: &mut Acc, c: &LinCase, cfg: &EmuC
             return false;
         }
     }
+    if prop == "C13" && reference.end.is_ok() {
+        // not a violation by itself (a changed location that is never read again is harmless):
+        // reported only together with an observed difference of the behaviour
+        if let (Some(what), Some(d)) = (&r.stats.print_changed, trace::diff(&reference, &r.outcome)) {
+            let msg = format!("{}: {what}, and the behaviour differs from the reference ({d}): a value did not survive the save/restore sequence around the external call", isa.name());
+            acc.violation(format!("C13:{}:print-save", isa.name()), msg.clone(), replay(&msg));
+            return false;
+        }
+    }
     match prop {
         "C09" | "C10" => r.stats.heap_walks > 0 && r.stats.max_frontier_blocks > 1,
         "C13" => r.stats.ext_calls > 0 || isa != Isa::Rv,
